@@ -290,7 +290,7 @@ def _block_traces(ctx, drivers, props, bins=None):
 def _never(module, env):
     """actions that the chosen MODE disables by construction (not a vacuity problem)"""
     if module == "MC_BlockMulti":
-        return {"iso": ("Tick", "Other", "HostileStep"), "expiry": ("HostileStep",), "hostile": ("Tick", "Other", "TransferStep")}[env["MODE"]]
+        return ()
     if module == "MC_BlockTransfer":
         return ()
     return ()
@@ -303,6 +303,10 @@ def _scripts(ctx, module, env, props, label, workers=8, bins=None, maxn=None, ex
     out = ctx.path("scripts-%s.nd" % label)
     e = dict(env)
     e["OUT"] = out
+    # emitted lines of MC_BlockTransfer can exceed 8 kB (whole call scripts): one worker, so that
+    # concurrent appends never interleave
+    if module == "MC_BlockTransfer":
+        workers = 1
     ctx.model_check(module, env=e, workers=workers, timeout=1800, allow_never=_never(module, env), coverage=False, expect_states=expect)
     if os.path.getsize(out) == 0:
         raise vlib.ToolError("model %s emitted no script (vacuity guard)" % module)
@@ -387,7 +391,9 @@ def c11(ctx):
 
 def c12(ctx):
     size = "full" if ctx.thorough else "small"
-    _scripts(ctx, "MC_BlockMulti", {"MODE": "iso", "SIZE": size, "DEPTH": 12}, {"C12"}, "iso")
+    _scripts(ctx, "MC_BlockMulti", {"MODE": "iso", "SIZE": size, "DEPTH": 12}, {"C12"}, "iso", bins=None if ctx.thorough else (ctx.build("dev"),))
+    # the two entry points of an exchange as separate steps, equal message ids on different endpoints
+    _scripts(ctx, "MC_BlockMulti", {"MODE": "split", "SIZE": size, "DEPTH": 12}, {"C12"}, "split", bins=(ctx.build("dev"),))
     _block_traces(ctx, ["isolation"], {"C12"})
     _server(ctx, {"C12"})
     _mixed(ctx, {"C12"})
